@@ -100,6 +100,8 @@ static int can_be_imm(Janet x, int8_t *out) {
     if (!janet_checkint(x)) return 0;
     int32_t integer = janet_unwrap_integer(x);
     if (integer > INT8_MAX || integer < INT8_MIN) return 0;
+    /* -0.0 is not the integer 0 */
+    if (integer == 0 && 1.0 / janet_unwrap_number(x) < 0) return 0;
     *out = (int8_t) integer;
     return 1;
 }
